@@ -36,9 +36,17 @@ type Run struct {
 	Trace        []StepTrace
 	Exp          []ExpEvent // expected events since the last sync, in order
 	step         int
-	nDo          int  // number of steps executed so far (index into the replay)
-	curOp        Op   // the step being executed
-	NoObserveAll bool // only observe the target key (cheap mode; Frame disabled)
+	nDo          int          // number of steps executed so far (index into the replay)
+	curOp        Op           // the step being executed
+	sentTomb     map[int]bool // collections that currently hold the sentinel tombstone
+	DropHappened bool
+	SharedKeyOps int  // steps whose key existed in >= 2 collections in different states
+	IsoProbes    bool // C11: compare query/view/ddoc probes of other collections after each step
+	probes       map[int]string
+	Twin         *World // C11: a second bucket with the same collection and key names; must never change
+	twinState    map[string]St
+	DDocs        map[int]map[string]map[string]ViewSpec // model of the design documents per collection
+	NoObserveAll bool                                   // only observe the target key (cheap mode; Frame disabled)
 	Poisoned     bool
 }
 
@@ -348,6 +356,14 @@ func (r *Run) Step(op Op) {
 		}
 	}
 	p := ki.St
+	for ci := range m.Colls {
+		if ci != op.C && !m.Colls[ci].Dropped {
+			if o := m.Get(ci, op.Key); o.Present && o.Class() != p.Class() {
+				r.SharedKeyOps++
+				break
+			}
+		}
+	}
 	res := w.Exec(op)
 	tr := StepTrace{Op: op, Prior: p.Class(), Cas: res.CasClass, Err: res.Err}
 	if res.Hang {
@@ -468,7 +484,7 @@ func (r *Run) frame(c int, key string, what string) {
 					props = []string{"C11"}
 				}
 				r.Devs = append(r.Devs, Deviation{Clause: "frame", Props: props, Step: r.step,
-					Msg: fmt.Sprintf("%s on %s/%q changed another document %s/%q: was %s now %s", what, w.Cfg.Colls[c], key, w.Cfg.Colls[ci], k, ki.St, got),
+					Msg: fmt.Sprintf("%s on %s/%q changed another document %s/%q: was %s now %s", what, r.collName(c), key, w.Cfg.Colls[ci], k, ki.St, got),
 					Sig: fmt.Sprintf("frame|%s|%v", what, ci != c)})
 				m.Commit(ci, k, got, "")
 			}
@@ -488,6 +504,9 @@ func (r *Run) Purge(h int) {
 	n, err := w.Handles[h].PurgeTombstones()
 	want := 0
 	for ci := range m.Colls {
+		if m.Colls[ci].Dropped {
+			continue
+		}
 		for _, k := range m.Keys(ci) {
 			if st := m.Get(ci, k); st.Present && st.Body == nil {
 				want++
@@ -503,6 +522,9 @@ func (r *Run) Purge(h int) {
 		tr.Outcome = "DEVIATION"
 	}
 	for ci := range m.Colls {
+		if m.Colls[ci].Dropped {
+			continue
+		}
 		for _, k := range m.Keys(ci) {
 			ki := m.Info(ci, k)
 			got, cdevs := Observe(w.Coll(h, ci), k, ki.XNameList())
@@ -521,7 +543,11 @@ func (r *Run) Purge(h int) {
 	r.Trace = append(r.Trace, tr)
 }
 
-func (r *Run) sentinelTombs() int { return 0 }
+func (r *Run) sentinelTombs() int {
+	n := len(r.sentTomb)
+	r.sentTomb = nil
+	return n
+}
 
 // ReopenStep closes all handles, reopens, and checks that everything reads the same.
 func (r *Run) ReopenStep() {
